@@ -280,7 +280,7 @@ void planRandom(const Args& A, Rng& r, Plan& P) {
     std::string forcedMode = A.get("mode");
     long negmixOpt = A.getl("negmix", -1);
     long relrangeOpt = A.getl("relrange", 1);
-    bool steer = A.getl("steer", 1) != 0;      // keep away from the triggers of known findings (see NOTES.md)
+    bool steer = A.getl("steer", 0) != 0;      // F-A..F-D are repaired in /repo (fix: commits): no steering by default
     {
         unsigned m = r.below(20);
         P.mode = m < 12 ? "image" : m < 17 ? "vm" : "err";
@@ -585,7 +585,7 @@ void execute(Plan& P, Rng& r) {
 int run(const Args& A) {
     libInit();
     bool probe = A.get("mode") == "probe";
-    bool steer = A.getl("steer", 1) != 0;
+    bool steer = A.getl("steer", 0) != 0;
     long nrandom = probe ? 0 : A.cases > 0 ? A.cases : (A.thorough() ? 30000 : 6000);
     long nex = (probe || A.get("mode") != "" || A.cases > 0) ? 0 : numExhaustive();   // cases nrandom.. : exhaustive part
     long ncases = probe ? numProbes() : nrandom + nex;
